@@ -180,7 +180,7 @@ def build(case):
     if case.get("inject", 0) > 0:
         inj = common.sub_rng(int(case["seed"]), "inject")
     rec = Recorder(np.random.Generator(np.random.PCG64(int(case["seed"]))), inj, case.get("inject", 0))
-    fb._rng = rec
+    common.set_rng(fb, rec)
     trace = []
     depth = [0]
 
